@@ -201,6 +201,9 @@ pub fn main() {
     let args = &args[1..];
     let seed: u64 = arg(args, "--seed", "1").parse().unwrap();
     let n: usize = arg(args, "--n", "2000").parse().unwrap();
+    // length bound of the exhaustive identifier strings / of the exhaustive parse texts
+    let exh: usize = arg(args, "--exh", "3").parse().unwrap();
+    let plen: usize = arg(args, "--plen", "4").parse().unwrap();
     let mut rng = Rng::new(seed);
 
     // Unicode facts the model takes as a table (char::is_alphabetic / is_whitespace for non-ASCII)
@@ -222,7 +225,7 @@ pub fn main() {
         println!("{{\"k\":\"uni\",\"table\":[{}]}}", rows.join(","));
     }
 
-    let short = all_strings(REDUCED, 3); // 820 strings
+    let short = all_strings(REDUCED, exh); // 820 strings for exh = 3
     let tiny = all_strings(REDUCED, 1); // 10 strings
     let mut idents: Vec<String> = Vec::new();
 
@@ -320,7 +323,7 @@ pub fn main() {
         }
     }
     // ---- (5) arbitrary text through the real parsers (model/implementation tie of the tokenizer slice)
-    let texts = all_strings(&['a', 'B', '1', '_', '.', '"', ' ', '\''], 4); // 4681 texts
+    let texts = all_strings(&['a', 'B', '1', '_', '.', '"', ' ', '\''], plen); // 4681 texts for plen = 4
     for t in &texts {
         parse_case(t, false);
     }
